@@ -46,7 +46,8 @@ def confirm(mdir, name):
             open("/tmp/confirm_index.html", "w").write("<html></html>")
             json.dump({"Replace": {wt + "/web/dist/index.html": "/tmp/confirm_index.html"}}, open("/tmp/confirm_ov.json", "w"))
             overlay = "-overlay /tmp/confirm_ov.json "
-        test = "go test -tags verif %s-vet=off -count=1 -run '%s' ./%s/" % (overlay, runre, pkg)
+        race = "-race " if " -race" in cmd else ""      # a data race only fails a demo under the detector
+        test = "go test %s-tags verif %s-vet=off -count=1 -run '%s' ./%s/" % (race, overlay, runre, pkg)
         rc0, out0 = sh(test, cwd=wt)
         print("demo on unmodified tree: rc=%d" % rc0)
         if rc0 != 0:
